@@ -92,3 +92,59 @@ kproof! {
         kani::cover!(sym == 144, "first 9-bit literal");
     }
 }
+
+use crate::preflate_token::{BlockType, PreflateToken, PreflateTokenBlock, PreflateTokenReference};
+
+kproof! {
+    /// K07x: writer token coding under an ARBITRARY (dynamic) code: for every code length 1..=15 and code
+    /// value of the length symbol, the distance symbol and the end-of-block symbol, every (length, distance)
+    /// and every bit offset at which the token starts, the bits emitted by write_literal / write_distance and
+    /// the extra-bit writes are exactly code ‖ extra ‖ code ‖ extra ‖ EOB, LSB first, nothing lost.
+    #[kani::stub(crate::bit_writer::BitWriter::flush_whole_bytes, crate::verif_common::stub_flush_whole_bytes)]
+    fn k07x_dynamic_token_write() {
+        let len: u32 = kani::any();
+        let dist: u32 = kani::any();
+        kani::assume(len >= 3 && len <= 258 && dist >= 1 && dist <= 32768);
+        let lsym = 257 + crate::preflate_constants::quantize_length(len);
+        let dsym = crate::preflate_constants::quantize_distance(dist);
+        let (ll, lc, dl, dc, el, ec): (u8, u16, u8, u16, u8, u16) = kani::any();
+        kani::assume(ll >= 1 && ll <= 15 && dl >= 1 && dl <= 15 && el >= 1 && el <= 15);
+        kani::assume((lc as u32) < (1u32 << ll) && (dc as u32) < (1u32 << dl) && (ec as u32) < (1u32 << el));
+        let mut w = HuffmanWriter { lit_code_lengths: vec![0u8; 286], lit_huffman_codes: vec![0u16; 286], dist_code_lengths: vec![0u8; 30], dist_huffman_codes: vec![0u16; 30] };
+        w.lit_code_lengths[lsym] = ll; w.lit_huffman_codes[lsym] = lc;
+        w.lit_code_lengths[256] = el; w.lit_huffman_codes[256] = ec;
+        w.dist_code_lengths[dsym] = dl; w.dist_huffman_codes[dsym] = dc;
+        // start at an arbitrary bit offset (bits already pending in the writer)
+        let pre: u32 = kani::any();
+        kani::assume(pre <= 7);
+        let mut bw = BitWriter::default();
+        let mut out: Vec<u8> = Vec::with_capacity(16);
+        bw.write(0, pre, &mut out);
+        // the writer's token sequence (same calls as DeflateWriter::encode_block_with_decoder, regular reference)
+        let lx = crate::preflate_constants::LENGTH_EXTRA_TABLE[lsym - 257] as u32;
+        let dx = crate::preflate_constants::DIST_EXTRA_TABLE[dsym] as u32;
+        let lev = len - 3 - crate::preflate_constants::LENGTH_BASE_TABLE[lsym - 257] as u32;
+        let dev = dist - 1 - crate::preflate_constants::DIST_BASE_TABLE[dsym] as u32;
+        let mut blk = PreflateTokenBlock::new(BlockType::DynamicHuff);
+        blk.tokens.push(PreflateToken::Reference(PreflateTokenReference::new(len, dist, false)));
+        let mut dw = crate::deflate_writer::DeflateWriter::verif_new_with(bw, out);
+        dw.verif_encode_tokens(&blk, &w);
+        dw.flush_with_padding(0);
+        let out = dw.verif_take_output();
+        // expected bit string
+        let mut exp: u128 = 0;
+        let mut n: u32 = pre;
+        exp |= (lc as u128) << n; n += ll as u32;
+        exp |= (lev as u128) << n; n += lx;
+        exp |= (dc as u128) << n; n += dl as u32;
+        exp |= (dev as u128) << n; n += dx;
+        exp |= (ec as u128) << n; n += el as u32;
+        let nbytes = ((n + 7) / 8) as usize;
+        assert!(out.len() == nbytes, "number of bytes written differs");
+        let mut i = 0;
+        while i < 12 { if i < nbytes { assert!(out[i] == ((exp >> (8 * i)) & 0xff) as u8, "token bits differ from code ‖ extra ‖ code ‖ extra ‖ EOB"); } i += 1; }
+        kani::cover!(dl == 15 && dx == 13 && pre == 7, "deepest distance code, most extra bits, worst bit offset");
+        kani::cover!(ll == 1 && lx == 0, "one-bit length code");
+        core::mem::forget(out); core::mem::forget(blk); core::mem::forget(w);
+    }
+}
